@@ -831,10 +831,15 @@ func (f *ontFam) Gen(r *hx.Run) {
 func (f *ontFam) genMsg(r *hx.Run) {
 	r.Rule("ONT cross-chain messages over tracked sets of 1..10 keys (every size, several per size) x 17 signer-list shapes " +
 		"(exact/below/above bound, repeated keys, foreign keys, wrong-message / garbage / missing / permuted / repeated signatures, empty), " +
-		"through header_sync SyncCrossChainMsg and cross_chain_manager MakeDepositProposal, with one or two key heights; " +
+		"through header_sync SyncCrossChainMsg and cross_chain_manager MakeDepositProposal, with one or two key heights; plus three-epoch cases with " +
+		"pairwise disjoint peer sets whose key headers arrive in both insertion orders (ascending / newer first, older back-filled) and every epoch " +
+		"probed with signers of every epoch; " +
 		"distinct non-trivial = (tracked size, shape, entry point, outcome)")
 	rounds := r.Pick(6, 120)
 	id := 0
+	for k := 0; k < r.Pick(12, 240); k++ {
+		f.genMsgEpochs(r, k)
+	}
 	for round := 0; round < rounds; round++ {
 		for n := 1; n <= 10; n++ {
 			id++
@@ -893,6 +898,67 @@ func (f *ontFam) genMsg(r *hx.Run) {
 			r.Do(fmt.Sprintf("msg %d - -", h))
 			r.Do("state")
 		}
+	}
+}
+
+// genMsgEpochs: three epochs with pairwise DISJOINT peer sets whose key headers are synced in every insertion order
+// (ascending, newer first with the older one back-filled, ...), then every epoch is probed with messages signed by
+// the members of every epoch (only the epoch's own set may pass).
+func (f *ontFam) genMsgEpochs(r *hx.Run, id int) {
+	perm := r.Rng.Perm(ontPool)
+	sizes := []int{1 + r.Rng.Intn(5), 1 + r.Rng.Intn(5), 1 + r.Rng.Intn(5)}
+	sets := [][]int{perm[:sizes[0]], perm[5 : 5+sizes[1]], perm[10 : 10+sizes[2]]}
+	g := uint32(1 + r.Rng.Intn(5))
+	h1 := g + 10 + uint32(r.Rng.Intn(5))
+	h2 := h1 + 10 + uint32(r.Rng.Intn(5))
+	khs := []uint32{g, h1, h2}
+	order := [][]int{{1, 2}, {2, 1}}[id%2] // insertion order of the two later key headers
+	r.Case(fmt.Sprintf("ontmsg-epochs-%d-%d%d", id, order[0], order[1]))
+	r.Do(fmt.Sprintf("genesis %d %s", g, idxList(sets[0])))
+	nonce := 0
+	for _, e := range order {
+		// both later key headers are authorised by the genesis set when they arrive out of order; in ascending order the
+		// second one must be signed by the first one's set
+		signer := sets[0]
+		if e == 2 && order[0] == 1 {
+			signer = sets[1]
+		}
+		b, sg, _ := signerShape(r, signer, 2)
+		nonce++
+		res := r.Do(fmt.Sprintf("hdr %d %d %s %s %s", khs[e], nonce, idxList(sets[e]), idxList(b), sg))
+		r.Nontrivial(fmt.Sprintf("epochs/key-header/%d%d/%s", order[0], order[1], res))
+	}
+	r.Do("state")
+	used := map[uint32]bool{}
+	for ep := 0; ep < 3; ep++ {
+		lo, hi := khs[ep]+1, khs[ep]+9
+		for by := 0; by < 3; by++ {
+			for _, shape := range []int{0, 2} {
+				h := lo + uint32(r.Rng.Intn(int(hi-lo+1)))
+				for used[h] {
+					h = lo + uint32(r.Rng.Intn(int(hi-lo+1)))
+				}
+				b, sg, _ := signerShape(r, sets[by], shape)
+				entry := "msg"
+				if r.Rng.Chance(1, 3) {
+					entry = "dep"
+				}
+				res := r.Do(fmt.Sprintf("%s %d %s %s", entry, h, idxList(b), sg))
+				if res == "ok" || res == "verified" {
+					used[h] = true
+				}
+				r.Nontrivial(fmt.Sprintf("epochs/%d%d/epoch%d-signed-by%d/%s", order[0], order[1], ep, by, res))
+				r.Hist(fmt.Sprintf("epochs.%s", map[bool]string{true: "own-set", false: "other-epoch-set"}[ep == by]))
+				r.Hist("outcome." + lastPart(res))
+			}
+		}
+	}
+	// exactly at the later key heights: still the epoch below
+	for _, e := range []int{1, 2} {
+		b, sg, _ := signerShape(r, sets[e], 2)
+		r.Do(fmt.Sprintf("msg %d %s %s", khs[e], idxList(b), sg))
+		b, sg, _ = signerShape(r, sets[e-1], 2)
+		r.Do(fmt.Sprintf("msg %d %s %s", khs[e], idxList(b), sg))
 	}
 }
 
